@@ -154,8 +154,12 @@ func vpH_C06_blocks() {
 // C06 (c): two blocks of different uncompressed sizes; the last, shortest
 // record of a block is read after the other block was cached.
 func vpH_C06_lookahead() {
-	l0 := vpChoice("len0", 3)
-	delta := vpChoice("delta", 24)
+	nl, nd := 3, 24
+	if vpThorough() {
+		nl, nd = 6, 48
+	}
+	l0 := vpChoice("len0", nl)
+	delta := vpChoice("delta", nd)
 	var docs []*vpDoc
 	for d := 0; d < 256; d++ {
 		switch d {
